@@ -26,20 +26,33 @@ RULE = ("seeded histories of 8-60 CertStore.get_cert calls (CN x ordered SAN lis
         "interleaved with add_cert of 6 custom certificates under their own CN/SANs plus explicit names "
         "('*', '*.a.test', ...), against STORE_CAP in {1,2,3,5,100} and more distinct requests than the capacity; "
         "non-trivial = at least one eviction AND one cache hit AND one custom-certificate answer or re-generation "
-        "after eviction; distinct = distinct abstract event-log digests")
+        "after eviction; in 3 of 4 runs some requests are FAILING requests (a CRL URL that is not plain ASCII, an empty "
+        "common name, or an injected one-shot error inside certificate generation) placed after ordinary requests, "
+        "often while the store is full, and often retried without the fault; "
+        "distinct = distinct abstract event-log digests")
 COMPONENTS_REAL = ["mitmproxy.certs.CertStore (get_cert, add_cert, expire, asterisk_forms)", "mitmproxy.certs.dummy_cert",
                    "mitmproxy.certs.Cert", "CA key/cert loaded by CertStore.from_store from data/confdir"]
 COMPONENTS_STUB = ["custom certificates are built by the harness with cryptography.x509 (fixed serials/dates)",
-                   "no TLS handshake: the store is driven directly (the P/tls rider is a separate check)"]
+                   "no TLS handshake: the store is driven directly (the P/tls rider is a separate check)",
+                   "fault 'inject': mitmproxy.certs.dummy_cert is replaced for ONE get_cert call by a wrapper that raises "
+                   "instead of generating (restored right after the call); the other two faults are plain arguments"]
 ASSUMPTIONS = ["a registration under a name replaces an earlier registration under the same name",
                "the organisation is not part of a request's identity (the statement speaks of names only)",
                "a common name of 64 or more characters may be left out of the generated subject (X.509 ub-common-name); "
                "the name must then still be present among the SANs if it was requested as a SAN",
                "requests with the same names in a different SAN order are distinct requests",
-               "eviction order is FIFO by generation (anchor: CertStore.expire)"]
+               "eviction order is FIFO by generation (anchor: CertStore.expire)",
+               "a request that fails (get_cert raises) generated nothing: it is not a generation in the model, the "
+               "certificates cached before it stay cached and the capacity bound holds after it as after any call"]
 EXPECTED_PROBES = ["evictions", "gen_hit", "regenerated_after_eviction", "custom_exact", "custom_wildcard",
                    "custom_star", "custom_shadows_cached", "ip_request", "long_cn", "org_differs_on_hit",
-                   "over_capacity_history", "cap_100_overflow", "cap_100_eviction"]
+                   "over_capacity_history", "cap_100_overflow", "cap_100_eviction",
+                   "gen_failed", "gen_failed_store_full", "gen_failed_crl", "gen_failed_empty_cn", "gen_failed_inject",
+                   "gen_new_after_failure_store_full", "retry_after_failure", "hit_after_failure",
+                   "fault_request_answered_from_store"]
+FAULT_KINDS = ["crl", "empty_cn", "inject"]
+BAD_CRL = "http://crl.ex\u00e4mple.test/ca.crl"      # not plain ASCII: x509.UniformResourceIdentifier refuses it
+OK_CRL = "http://crl.example.test/ca.crl"
 
 CAPS = [1, 2, 3, 5, 100]
 LONG = "averyveryverylonghostnamelabel-0123456789.subdomain-0123456789.b.test"  # 69 chars, labels < 64
@@ -153,7 +166,48 @@ def generate(rng, tier):
         if r.random() < 0.3:
             q["org"] = r.choice(ORGS)
         ops.append(q)
+    ops = _add_failing_requests(rng.at("c17-fault"), ops, pool)
     return {"family": "cap-%d" % cap, "cap": cap, "ops": ops}
+
+
+def _add_failing_requests(rf, ops, pool):
+    """Failing requests, drawn from their own rng site so that the fault-free part of a history keeps its shape.
+
+    A failing request is an ordinary request plus a reason for certificate generation to raise.  It only raises when
+    the store has to generate (a cached or custom answer needs no generation), so most of them use fresh shapes."""
+    p_fault = rf.choice([0.0, 0.03, 0.06, 0.12])
+    p_retry = rf.choice([0.0, 0.4, 0.8])
+    if not p_fault:
+        return ops
+    out = []
+    for op in ops:
+        out.append(op)
+        if op["op"] != "get" or rf.random() >= p_fault:
+            continue
+        for _ in range(rf.choice([1, 1, 1, 2])):
+            x = rf.random()
+            if x < 0.55:
+                q = _gen_request(rf)                 # mostly a shape the store has not got
+            elif x < 0.85:
+                q = dict(rf.choice(pool))            # evicted long ago, or still cached (then nothing fails)
+            else:
+                q = dict(op)                         # the request just answered: cached unless a custom one answered
+            kind = rf.choice(FAULT_KINDS)
+            q["fault"] = kind
+            if kind == "empty_cn":
+                q["cn"] = ""
+                if not q["sans"]:
+                    q["sans"] = [_san(rf.choice(NAMES))]
+            out.append(q)
+            if rf.random() < p_retry:
+                q2 = dict(q)
+                del q2["fault"]
+                if kind == "empty_cn":
+                    q2["cn"] = None
+                if rf.random() < 0.3:
+                    q2["crl"] = OK_CRL
+                out.append(q2)
+    return out
 
 
 # ---------------------------------------------------------------------------
@@ -292,6 +346,9 @@ def execute(sc):
     seen_v = set()
     probes = {}
     distinct_req = set()
+    faults = {}
+    failed_keys = set()
+    st = {"failed": False, "failed_full": False}
 
     def probe(n, k=1):
         probes[n] = probes.get(n, 0) + k
@@ -302,6 +359,64 @@ def execute(sc):
             return
         seen_v.add(sig)
         viol.append({"class": cls, "key": key, "msg": msg})
+
+    def check_answer(i, key, cn, sans, org, entry, req_txt):
+        cand = candidate_keys(cn, sans)
+        if id(entry) in custom_ids:
+            k = custom_ids[id(entry)]
+            hows = [how for name, how in cand.items() if model.custom.get(name) == k]
+            if not hows:
+                bad("custom_cert_for_other_names", {"custom": k},
+                    f"step {i}: {req_txt} was answered with custom certificate #{k} "
+                    f"(cn={CUSTOM[k][0]!r}), which is not registered under any name matching the request; "
+                    f"registered names of #{k}: {sorted(n for n, c in model.custom.items() if c == k)}")
+                log.append((i, "get", "custom-bad", k))
+            else:
+                how = "exact" if "exact" in hows else ("wildcard" if "wildcard" in hows else "star")
+                probe("custom_" + how)
+                if key in model.fifo:
+                    probe("custom_shadows_cached")
+                log.append((i, "get", "custom", k, how))
+        else:
+            ccn, csans = _cert_names(entry.cert)
+            want_cn = cn if cn else None
+            if want_cn is not None and len(want_cn) >= 64:
+                probe("long_cn")
+                cn_ok = ccn in (want_cn, None)
+            else:
+                cn_ok = ccn == want_cn
+            if not cn_ok:
+                bad("generated_cert_wrong_names", {"what": "cn"},
+                    f"step {i}: {req_txt} returned a generated certificate with CN {ccn!r}")
+            if sorted(csans) != sorted(sans):
+                bad("generated_cert_wrong_names", {"what": "san"},
+                    f"step {i}: {req_txt} returned a generated certificate with SANs {csans}")
+            if key in model.fifo:
+                if model.obj[key] is not entry:
+                    bad("not_same_while_cached", {"kind": "cached_entry_replaced"},
+                        f"step {i}: {req_txt} repeated while the model still holds it cached "
+                        f"(capacity {cap}, {len(model.fifo)} generated keys live) but a different entry came back")
+                    model.obj[key] = entry
+                    log.append((i, "get", "gen-changed"))
+                else:
+                    probe("gen_hit")
+                    if st["failed"]:
+                        probe("hit_after_failure")
+                    if model.org.get(key) != org:
+                        probe("org_differs_on_hit")
+                    log.append((i, "get", "gen-hit", model.fifo.index(key)))
+            else:
+                if key in model.ever:
+                    probe("regenerated_after_eviction")
+                if st["failed_full"]:
+                    probe("gen_new_after_failure_store_full")
+                ev0 = model.evictions
+                model.generated(key, entry, org)
+                if model.evictions > ev0:
+                    probe("evictions")
+                    if cap == 100:
+                        probe("cap_100_eviction")
+                log.append((i, "get", "gen-new", len(model.fifo)))
 
     for i, op in enumerate(sc.get("ops", [])):
         if op["op"] == "add":
@@ -317,63 +432,45 @@ def execute(sc):
                 continue
             org = op.get("org")
             key = (cn, tuple(sans))
-            distinct_req.add(key)
             if any(k == "ip" for k, _ in sans) or (cn and _is_ip(cn)):
                 probe("ip_request")
-            entry = store.get_cert(cn, [_general_name(k, v) for k, v in sans], org)
-            cand = candidate_keys(cn, sans)
+            fault = op.get("fault")
+            crl = BAD_CRL if fault == "crl" else op.get("crl")
             req_txt = f"get_cert(cn={cn!r}, sans={[v for _, v in sans]})"
-            if id(entry) in custom_ids:
-                k = custom_ids[id(entry)]
-                hows = [how for name, how in cand.items() if model.custom.get(name) == k]
-                if not hows:
-                    bad("custom_cert_for_other_names", {"custom": k},
-                        f"step {i}: {req_txt} was answered with custom certificate #{k} "
-                        f"(cn={CUSTOM[k][0]!r}), which is not registered under any name matching the request; "
-                        f"registered names of #{k}: {sorted(n for n, c in model.custom.items() if c == k)}")
-                    log.append((i, "get", "custom-bad", k))
-                else:
-                    how = "exact" if "exact" in hows else ("wildcard" if "wildcard" in hows else "star")
-                    probe("custom_" + how)
-                    if key in model.fifo:
-                        probe("custom_shadows_cached")
-                    log.append((i, "get", "custom", k, how))
-            else:
-                ccn, csans = _cert_names(entry.cert)
-                want_cn = cn if cn else None
-                if want_cn is not None and len(want_cn) >= 64:
-                    probe("long_cn")
-                    cn_ok = ccn in (want_cn, None)
-                else:
-                    cn_ok = ccn == want_cn
-                if not cn_ok:
-                    bad("generated_cert_wrong_names", {"what": "cn"},
-                        f"step {i}: {req_txt} returned a generated certificate with CN {ccn!r}")
-                if sorted(csans) != sorted(sans):
-                    bad("generated_cert_wrong_names", {"what": "san"},
-                        f"step {i}: {req_txt} returned a generated certificate with SANs {csans}")
-                if key in model.fifo:
-                    if model.obj[key] is not entry:
-                        bad("not_same_while_cached", {"kind": "cached_entry_replaced"},
-                            f"step {i}: {req_txt} repeated while the model still holds it cached "
-                            f"(capacity {cap}, {len(model.fifo)} generated keys live) but a different entry came back")
-                        model.obj[key] = entry
-                        log.append((i, "get", "gen-changed"))
-                    else:
-                        probe("gen_hit")
-                        if model.org.get(key) != org:
-                            probe("org_differs_on_hit")
-                        log.append((i, "get", "gen-hit", model.fifo.index(key)))
-                else:
-                    if key in model.ever:
-                        probe("regenerated_after_eviction")
-                    ev0 = model.evictions
-                    model.generated(key, entry, org)
-                    if model.evictions > ev0:
-                        probe("evictions")
-                        if cap == 100:
-                            probe("cap_100_eviction")
-                    log.append((i, "get", "gen-new", len(model.fifo)))
+            full_before = len(model.fifo) >= cap
+            real_gen = certs.dummy_cert
+            fired = []
+            if fault == "inject":
+                def failing_gen(*a, **kw):
+                    fired.append(1)
+                    raise OSError("injected: certificate generation failed")
+                certs.dummy_cert = failing_gen
+            try:
+                try:
+                    entry = store.get_cert(cn, [_general_name(k, v) for k, v in sans], org, crl)
+                finally:
+                    certs.dummy_cert = real_gen
+            except Exception as exc:
+                if not fault or (fault == "inject" and not fired):
+                    raise
+                # a failed request: nothing was generated, so the model does not move; the bound is checked below
+                faults["gen_" + fault] = faults.get("gen_" + fault, 0) + 1
+                probe("gen_failed")
+                probe("gen_failed_" + fault)
+                if full_before:
+                    probe("gen_failed_store_full")
+                    st["failed_full"] = True
+                st["failed"] = True
+                failed_keys.add(key if fault != "empty_cn" else (None, key[1]))
+                log.append((i, "get", "raised", fault, type(exc).__name__))
+                entry = None
+            if entry is not None:
+                distinct_req.add(key)
+                if fault:
+                    probe("fault_request_answered_from_store")
+                elif key in failed_keys:
+                    probe("retry_after_failure")
+                check_answer(i, key, cn, sans, org, entry, req_txt)
         # ---- the bound, observed on the store's own state after every step -------------------------
         reach = {}
         for e in store.certs.values():
@@ -387,7 +484,9 @@ def execute(sc):
             where = "certs" if n_certs > cap else "expire_queue"
             bad("capacity_exceeded", {"where": where},
                 f"step {i}: {len(reach)} generated entries reachable from the store "
-                f"({n_certs} via certs, {len(store.expire_queue)} queued) with capacity {cap}")
+                f"({n_certs} via certs, {len(store.expire_queue)} queued) with capacity {cap}"
+                + (f"; {sum(faults.values())} earlier request(s) failed inside certificate generation"
+                   if faults else ""))
         log.append((i, "n", len(reach)))
 
     if len(distinct_req) > cap:
@@ -397,6 +496,6 @@ def execute(sc):
     nontrivial = bool(probes.get("evictions") and probes.get("gen_hit") and
                       (probes.get("regenerated_after_eviction") or probes.get("custom_exact")
                        or probes.get("custom_wildcard") or probes.get("custom_star")))
-    return {"violations": viol, "digest": digest(log), "nontrivial": nontrivial, "faults": {},
+    return {"violations": viol, "digest": digest(log), "nontrivial": nontrivial, "faults": faults,
             "probes": probes, "sim_s": 0.0,
             "states": {f"{min(len(model.fifo), 6)}/{cap}", f"custom={len(set(model.custom.values()))}"}}
